@@ -29,7 +29,7 @@ def main():
     patch = os.path.join(awt, "SEED", "patch.diff")
     rc, out = sh("git status --porcelain", awt)
     demos = [l[3:] for l in out.splitlines() if l.startswith("?? ") and l.endswith("_test.go")]
-    demos += [l[3:].rstrip("/") for l in out.splitlines() if l.startswith("?? ") and l.endswith("/") and not l[3:].startswith("SEED")]
+    demos += [l[3:].rstrip("/") for l in out.splitlines() if l.startswith("?? ") and l.endswith("/") and not l[3:].startswith("SEED") and not l[3:].startswith(".cache")]
     wt = tempfile.mkdtemp(prefix="sv-%s-" % sid, dir="/tmp"); os.rmdir(wt)
     subprocess.run(["git", "-C", "/repo", "worktree", "add", "--detach", "-q", wt, "HEAD"], check=True)
     meta = {"seed": sid, "property": prop, "demo_files": demos, "ran": []}
